@@ -490,11 +490,16 @@ func (p *RegProcessor) processBdReq(c2sPayload *pb.C2SWrapper) (*pb.Registration
 		return nil, ErrRegProcessFailed
 	}
 
+	// Take the read lock once and keep a snapshot of the selector: both selections of a dual-stack
+	// request use the same set of subnets, and no read lock is held or re-acquired while a reload
+	// (ReloadSubnets) waits for the write lock - a nested RLock would deadlock with it.
+	p.selectorMutex.RLock()
+	selector := p.ipSelector
+	p.selectorMutex.RUnlock()
+
 	phantomSubnetSupportsRandPort := true
 	if c2s.GetV4Support() {
-		p.selectorMutex.RLock()
-		defer p.selectorMutex.RUnlock()
-		phantom4, err := p.ipSelector.Select(
+		phantom4, err := selector.Select(
 			cjkeys.ConjureSeed,
 			uint(c2s.GetDecoyListGeneration()), //generation type uint
 			clientLibVer,
@@ -511,9 +516,7 @@ func (p *RegProcessor) processBdReq(c2sPayload *pb.C2SWrapper) (*pb.Registration
 	}
 
 	if c2s.GetV6Support() {
-		p.selectorMutex.RLock()
-		defer p.selectorMutex.RUnlock()
-		phantom6, err := p.ipSelector.Select(
+		phantom6, err := selector.Select(
 			cjkeys.ConjureSeed,
 			uint(c2s.GetDecoyListGeneration()),
 			clientLibVer,
